@@ -1046,7 +1046,50 @@ def _check(constraints, timeout_ms, aux=False):
     else:
         CTX.stats["queries"] += 1
         CTX.stats[str(r)] += 1
+        global _XCOUNT
+        _XCOUNT += 1
+        if XCHECK_EVERY and str(r) in ("sat", "unsat") and _XCOUNT % XCHECK_EVERY == 0:
+            _crosscheck(s, str(r))
     return str(r), s
+
+
+XCHECK_EVERY = int(os.environ.get("VERIF_CROSSCHECK_EVERY", "0") or 0)
+_XCOUNT = 0  # per worker process: real solver calls so far
+
+
+def _crosscheck(solver, verdict):
+    """Second opinion from cvc5 on the same SMT-LIB text (a sample of the decided queries); a contradiction is a harness error."""
+    try:
+        import cvc5
+    except Exception:
+        return
+    t = time.time()
+    try:
+        slv = cvc5.Solver()
+        slv.setOption("tlimit-per", "10000")
+        slv.setLogic("ALL")
+        p = cvc5.InputParser(slv)
+        p.setStringInput(cvc5.InputLanguage.SMT_LIB_2_6, solver.to_smt2(), "q")
+        sm = p.getSymbolManager()
+        res = None
+        while True:
+            c = p.nextCommand()
+            if c.isNull():
+                break
+            out = c.invoke(slv, sm)
+            if c.getCommandName() == "check-sat":
+                res = str(out).strip()
+    except Exception as e:
+        CTX.stats["xcheck_error"] = CTX.stats.get("xcheck_error", 0) + 1
+        return
+    CTX.stats["xcheck_s"] = CTX.stats.get("xcheck_s", 0.0) + time.time() - t
+    if res == verdict:
+        CTX.stats["xcheck_agree"] = CTX.stats.get("xcheck_agree", 0) + 1
+    elif res in ("sat", "unsat"):
+        CTX.stats["xcheck_disagree"] = CTX.stats.get("xcheck_disagree", 0) + 1
+        raise HarnessError(f"z3 says {verdict}, cvc5 says {res} on the same query")
+    else:
+        CTX.stats["xcheck_cvc5_unknown"] = CTX.stats.get("xcheck_cvc5_unknown", 0) + 1
 
 
 def model_values(solver):
